@@ -4,6 +4,7 @@
 // output vector. Workload: parsed packets (all PDU entry points), API-built packets with edit histories between
 // serializations, and an enumeration of option shapes per option-bearing class.
 #include "inputs.h"
+#include <tins/pdu_cacher.h>
 using namespace Tins;
 using namespace vf;
 
@@ -123,7 +124,7 @@ static void option_shapes(long idx, Rng& r) {
 
 // ---- variable-length header elements that are not options (record lists, extension objects, padding) ---------
 static void element_shapes(long idx, Rng& r) {
-    u32 which = (u32)(idx % 7); std::unique_ptr<PDU> root; std::string d;
+    u32 which = (u32)(idx % 8); std::unique_ptr<PDU> root; std::string d;
     auto ip6 = [&]() { Bytes b = r.bytes(16); return IPv6Address(b.data()); };
     try {
         switch (which) {
@@ -160,6 +161,13 @@ static void element_shapes(long idx, Rng& r) {
                           default: c->maximum_response_code((u16)r.next()); d += " mrc"; }
                       if (r.chance(1, 2)) { Bytes b = r.bytes(1 + r.below(30)); c->inner_pdu(new RawPDU(b.data(), (u32)b.size())); d += " +payload"; }
                       root.reset(new EthernetII(EthernetII() / IPv6("::1", "::2"))); root->inner_pdu()->inner_pdu(c); break; }
+            case 6: {      // the caching wrapper as a layer in the middle of a stack: it may only write its own (cached) octets
+                Bytes b = r.bytes(1 + r.below(60)); u32 k = r.below(4); d = "PDUCacher in a stack, kind " + std::to_string(k) + " payload=" + std::to_string(b.size());
+                PDU* c; switch (k) { case 0: { UDP u(53, 1025); c = new PDUCacher<UDP>(u); break; } case 1: { Dot1Q q(r.below(4096), false); c = new PDUCacher<Dot1Q>(q); break; } case 2: { SNAP sn; c = new PDUCacher<SNAP>(sn); break; } default: { RawPDU rw("cached-bytes"); c = new PDUCacher<RawPDU>(rw); } }
+                c->inner_pdu(new RawPDU(b.data(), (u32)b.size()));
+                root.reset(new EthernetII()); if (k == 0) { root->inner_pdu(new IP("1.2.3.4", "4.3.2.1")); root->inner_pdu()->inner_pdu(c); } else root->inner_pdu(c);
+                if (r.chance(1, 2)) { try { root->serialize(); } catch (...) {} d += " (second serialization: cache warm)"; }
+                break; }
             default: { IPv6* v6 = new IPv6("::1", "::2"); u32 n = 1 + r.below(4); d = "IPv6 extension headers:";
                       static const IPv6::ExtensionHeader hs[] = {IPv6::HOP_BY_HOP, IPv6::DESTINATION_ROUTING_OPTIONS, IPv6::ROUTING, IPv6::FRAGMENT, IPv6::MOBILITY};
                       for (u32 i = 0; i < n; ++i) { Bytes b = r.bytes(r.chance(1, 2) ? 6 + 8 * r.below(4) : r.below(30)); if (r.chance(1, 5)) { u16 l2 = (u16)r.below((u32)b.size() + 9); v6->add_header(IPv6::ext_header(hs[r.below(5)], l2, b.begin(), b.end())); d += " len=" + std::to_string(b.size()) + "(length-field " + std::to_string(l2) + ")"; cnt("element_shapes_with_spoofed_length_field"); } else v6->add_header(IPv6::ext_header(hs[r.below(5)], b.begin(), b.end())); d += " len=" + std::to_string(b.size()); }
@@ -168,7 +176,7 @@ static void element_shapes(long idx, Rng& r) {
         }
     } catch (const exception_base&) { cnt("element_shape_refused_by_setter:" + std::to_string(which)); return; }
     describe_case("element-shape " + d);
-    static const char* nm[] = {"ICMPv6.mld2", "ICMP.extensions", "ICMPv6.extensions", "RTP", "IPSecAH", "ICMPv6.mld_query", "IPv6.ext_headers"};
+    static const char* nm[] = {"ICMPv6.mld2", "ICMP.extensions", "ICMPv6.extensions", "RTP", "IPSecAH", "ICMPv6.mld_query", "PDUCacher", "IPv6.ext_headers"};
     cnt(std::string("element_shapes:") + nm[which]);
     Bytes y = check_packet(root.get(), "element-shape " + d);
     if (y.empty()) return;
